@@ -93,7 +93,7 @@ Fixpoint pdelivered (outs : list pout) : list pmsg :=
   | Complete _ rv (Some m) :: r => if N.eqb rv 0 then m :: pdelivered r else pdelivered r
   | _ :: r => pdelivered r
   end.
-(* a wire message taken from the peer that the hop rules admit, in decoded form; one they reject *)
+(* a wire message taken from the peer that the hop rules let in, in decoded form; one they reject *)
 Definition arrived_ok (s : pair) (o : pop) : list pmsg :=
   match o with
   | PRecvDone _ rv m => if N.eqb rv 0 then match rx_decode k (pr_ttl s) m with RxOk m' => [m'] | _ => [] end else []
@@ -482,11 +482,11 @@ Proof.
 Qed.
 
 (* ---- set_send_buf_len's admission loop ---- *)
-Lemma admit_spec cap : forall q w,
-  admit_waiters cap w q =
+Lemma takein_spec cap : forall q w,
+  takein_waiters cap w q =
   (w ++ map snd (firstn (cap - length w) q), skipn (cap - length w) q, map fst (firstn (cap - length w) q)).
 Proof.
-  induction q as [|[a m] r IH]; intros w; cbn [admit_waiters].
+  induction q as [|[a m] r IH]; intros w; cbn [takein_waiters].
   - rewrite firstn_nil, skipn_nil. cbn. now rewrite app_nil_r.
   - unfold lmq_full. destruct (Nat.leb_spec cap (length w)).
     + replace (cap - length w) with 0 by lia. cbn. now rewrite app_nil_r.
@@ -534,7 +534,7 @@ Proof.
       cbn [wloss]. now rewrite EB. }
     open_state s. rewrite EB. destruct fr.
     + (* since 7c956d7: the blocked senders move into the resized queue *)
-      rewrite admit_spec in H. fold (completes (map fst (firstn (n - length (firstn n wmq)) waq))) in H.
+      rewrite takein_spec in H. fold (completes (map fst (firstn (n - length (firstn n wmq)) waq))) in H.
       set (room := n - length (firstn n wmq)) in *.
       assert (SK: skipn n wmq = [] \/ room = 0).
       { destruct (Nat.le_gt_cases (length wmq) n) as [L|L]; [left; now apply skipn_all2|right].
@@ -665,7 +665,7 @@ Proof.
   - (* PSetOpt *)
     open_flags s. destruct op; try (inv H; exact HR).
     + destruct (PAIR_BUF_MAX <? N.of_nat n)%N; [inv H; simp_r; exact HR|].
-      destruct fr; [rewrite admit_spec in H|]; inv H; simp_r; exact HR.
+      destruct fr; [rewrite takein_spec in H|]; inv H; simp_r; exact HR.
     + destruct (PAIR_BUF_MAX <? N.of_nat n)%N; inv H; simp_r; [exact HR|].
       destruct (firstn n rmq); cbn; auto. destruct rd; auto. rewrite HR. now rewrite orb_true_r.
     + destruct k; [inv H; exact HR|].
@@ -726,7 +726,7 @@ Proof.
   - (* PSetOpt *)
     open_flags s. destruct op; try (inv H; exact HW).
     + destruct (PAIR_BUF_MAX <? N.of_nat n)%N; [inv H; simp_r; exact HW|].
-      destruct fr; [rewrite admit_spec in H|]; inv H; simp_r;
+      destruct fr; [rewrite takein_spec in H|]; inv H; simp_r;
         match goal with |- context[lmq_full ?q n] => destruct (lmq_full q n) end; cbn; try (now rewrite orb_true_r);
         destruct wr; cbn; auto; try (rewrite HW; reflexivity).
     + destruct (PAIR_BUF_MAX <? N.of_nat n)%N; inv H; simp_r; exact HW.
@@ -1063,7 +1063,7 @@ Proof.
     + destruct (PAIR_BUF_MAX <? N.of_nat n)%N eqn:EB.
       { inversion H; subst. apply sub_same; auto. cbn [sub_loss]. now rewrite EB. }
       destruct s as [p0 ttl wmq wcap waq rmq rcap raq rd wr sn rdb wrb]. simp_r.
-      rewrite admit_spec in H. set (room := n - length (firstn n wmq)) in *.
+      rewrite takein_spec in H. set (room := n - length (firstn n wmq)) in *.
       inversion H; subst; clear H.
       unfold SubLaw, QInv, pend, sub_loss, submitted. simp_r. rewrite EB.
       rewrite !txs_app, txs_map_Free. fold (completes (map fst (firstn room waq))). rewrite txs_completes. cbn [txs app]. rewrite !app_nil_r.
@@ -1129,7 +1129,7 @@ Theorem pair1_hop_rules_law raw fx fr s p hdr b0 b1 b2 b3 rest :
   ((255 < v)%N -> pair_step (K1 raw) fx fr s (PRecvDone p 0 m) = (s, [Free m; ClosePipe p])) /\
   (* a valid count above the limit: freed, the receive re-armed, the connection kept *)
   ((v <= 255)%N -> (N.of_nat (pr_ttl s) < v)%N -> pair_step (K1 raw) fx fr s (PRecvDone p 0 m) = (s, [Free m; TranRecv p])) /\
-  (* otherwise: admitted, with the hop count as header and the four bytes trimmed *)
+  (* otherwise: letin, with the hop count as header and the four bytes trimmed *)
   ((v <= 255)%N -> (v <= N.of_nat (pr_ttl s))%N ->
      rx_decode (K1 raw) (pr_ttl s) m = RxOk (mkPmsg (hdr ++ [0; 0; 0; v]%N) rest) /\
      arrived_ok (K1 raw) s (PRecvDone p 0 m) = [mkPmsg (hdr ++ [0; 0; 0; v]%N) rest] /\
@@ -1156,7 +1156,7 @@ Proof.
   destruct b as [|b0 [|b1 [|b2 [|b3 r]]]]; cbn in H; try lia; reflexivity.
 Qed.
 
-(* for well-formed bytes the admitted header is exactly the four bytes received *)
+(* for well-formed bytes the letin header is exactly the four bytes received *)
 Lemma word32_small_bytes b0 b1 b2 b3 : byte_ok b0 -> byte_ok b1 -> byte_ok b2 -> byte_ok b3 ->
   (word32 b0 b1 b2 b3 <= 255)%N -> [0; 0; 0; word32 b0 b1 b2 b3]%N = [b0; b1; b2; b3].
 Proof. intros A B C D H. destruct (word32_small _ _ _ _ _ A B C D eq_refl H) as (-> & -> & -> & E). now rewrite <- E. Qed.
